@@ -158,7 +158,7 @@ func (w *Walker) canonKey(prefix, rel *Term) *Term {
 	if rel != nil && rel.Op != "nil" {
 		abs = mk("call", "append", prefix, rel)
 	}
-	act := flattenKey(w.ts.expandKeyCalls(abs, 0))
+	act := flattenKey(w.ts.expandKeyCallsF(abs, 0, true))
 	if len(act) == 0 {
 		return abs
 	}
